@@ -316,8 +316,8 @@ def exact_cases(rng):
                 val = 100 + i
     yield 'switch', 'switch(%s)' % ', '.join(parts), {}, tr, val, 2 * n - len(tr)
     # switchCase
-    n = rng.choice((0, 1, 2, 3))
-    case = rng.choice([-1, 0, 1, 2, 5])
+    n = rng.choice((0, 1, 2, 3, 4))
+    case = rng.choice([-1, -2, -3, -4, -5, -9, 0, 1, 2, 3, 4, 5])      # (any negative case selects the last operand)
     parts = ['tick(%d, %d)' % (i + 2, 200 + i) for i in range(n)]
     sel = case if 0 <= case < n else (n - 1 if n else None)
     tr = [1] + ([sel + 2] if sel is not None else [])
